@@ -85,3 +85,37 @@ func (e *env) toServerSCION(req []byte) (replies [][]byte) {
 		}
 	}
 }
+
+// toServerSCIONRaw forwards a SCION datagram of a client unchanged to the real
+// SCION listener and returns the datagrams that come back before the reply to a
+// plain NTP request sent right after it, together with their NTP/NTS payloads.
+func (e *env) toServerSCIONRaw(raw []byte) (raws, payloads [][]byte) {
+	dst := &net.UDPAddr{IP: e.ip, Port: scionPort}
+	if _, err := e.up.WriteToUDP(raw, dst); err != nil {
+		fatal("relay write: %v", err)
+	}
+	s := e.sentinel()
+	if _, err := e.up.WriteToUDP(wrapSCION(s, 40123), dst); err != nil {
+		fatal("relay write: %v", err)
+	}
+	buf := make([]byte, 4096)
+	e.up.SetReadDeadline(time.Now().Add(waitLong))
+	for {
+		n, _, err := e.up.ReadFromUDP(buf)
+		if err != nil {
+			fatal("SCION listener did not answer the sentinel request: %v", err)
+		}
+		d := append([]byte(nil), buf[:n]...)
+		b, ok := unwrapSCION(d)
+		if !ok {
+			continue
+		}
+		if len(b) == ntp.PacketLen && string(b[24:32]) == string(s[40:48]) {
+			return raws, payloads
+		}
+		if len(b) > ntp.PacketLen {
+			raws = append(raws, d)
+			payloads = append(payloads, b)
+		}
+	}
+}
